@@ -87,6 +87,17 @@ def params(draw, row, N, cplx, windows=None):
     raise ValueError(row)
 
 
+def sanitize(row, x):
+    """Integer-valued data can have an autocorrelation lag that is exactly zero, which makes the
+    inner least-squares problem of the ARMA estimator exactly singular (NaN model): 'degenerate
+    data' in the sense of C15.  The relational properties use continuous data for that row."""
+    if row == "parma" and x.get("kind") == "int":
+        x = dict(x)
+        x["kind"] = "noise"
+        x.pop("range", None)
+    return x
+
+
 def min_nfft(row, N, p):
     """Admissibility rule quoted in C05."""
     if row == "Periodogram" or row.startswith("mtm_"):
